@@ -146,6 +146,32 @@ func checkSeqnoValidator(c *RuleCtx, all bool) {
 					}
 				}
 			}
+			if !okDecode {
+				// the decoded value may reach the compared variable through local copies (a decode helper's result):
+				// follow every source chain of the operands of the comparison
+				ast.Inspect(decidingNode, func(x ast.Node) bool {
+					id, ok := x.(*ast.Ident)
+					if !ok || okDecode {
+						return !okDecode
+					}
+					if _, isVar := f.Info().Uses[id].(*types.Var); !isVar {
+						return true
+					}
+					for _, ch := range p.R(f).Sources(id) {
+						if ch.Leaf == nil || !ch.Leaf.Has(func(v *V) bool { return strings.HasSuffix(v.Name, ".Uint64") }) {
+							continue
+						}
+						for _, n := range ch.Nodes {
+							if m, _ := lf.At(n); m == lockExcl {
+								if dn, located := g.Locate(n); located && g.ReachableFrom(dn, dp, nil, nil) {
+									okDecode = true
+								}
+							}
+						}
+					}
+					return true
+				})
+			}
 			c.Check(okDecode, "R20.1", f.Name, "compared nonce decoded inside the critical section", decidingNode, "nonce is assigned from a decode under the lock", "the nonce used by the deciding comparison is not refreshed inside the critical section")
 			// no release between the lock acquisition and the Put
 			rel := false
